@@ -17,6 +17,7 @@ def array_sum(y):
 class ClassificationScore:
     target = "soundevent.evaluation.metrics:classification_score"
     types = {"y_true": "Optional[int]", "y_score": "NDArray"}
+    result = "float"
 
     def requires(y_true, y_score):
         return y_true is None or (0 <= y_true and y_true < len(y_score))
@@ -39,6 +40,7 @@ def mean_or_zero(xs):
 class Mean:
     target = "soundevent.evaluation.tasks.sound_event_detection:_mean"
     types = {"scores": "List[Optional[float]]"}
+    result = "float"
 
     def ensures(scores, result):
         return result == mean_or_zero(scores)
@@ -115,8 +117,12 @@ def match_ok(vocab, m):
     return m.affinity == 0 and m.score == 0
 
 
+def geometry_ok(g):
+    return g is None or valid_geometry(g)
+
+
 def geometries_valid(events):
-    return forall(len(events), lambda i: events[i].sound_event.geometry is None or valid_geometry(events[i].sound_event.geometry))
+    return forall(len(events), lambda i: geometry_ok(events[i].sound_event.geometry))
 
 
 class EvaluateClip:
